@@ -458,6 +458,7 @@ func drawStorm(t *rapid.T) *workload {
 		to := (from + 1 + rapid.IntRange(0, w.NConn-2).Draw(t, "unsolTo")) % w.NConn
 		w.Unsol = append(w.Unsol, unsolPlan{From: from, To: to, DelayUs: rapid.IntRange(0, 4*tUs).Draw(t, "unsolDelay")})
 	}
+	addTwins(t, w, tUs/3, 2*tUs/3, 20000)
 	return w
 }
 
